@@ -58,7 +58,7 @@ def iter_spec(rng: random.Random, name: str, maxlen: int = 8) -> dict:
     if name in RAW_ANY_TOOLS and not spec.get("raw") and rng.random() < 0.12:
         # plain values incl. None / falsy ones: nothing but identity may serve as a "no item" marker
         spec["raw"] = True
-        pool = [None, None, 0, False, "", 1, ["T"], ["Op", 1], ["Op", 2], ["Aw", 1], ["Aw", 2], ["La", 1]]
+        pool = [None, None, 0, False, "", 1, ["T"], ["Op", 1], ["Op", 2], ["Aw", 1], ["Aw", 2], ["La", 1], ["An", 1]]
         srcs = spec["srcs"]
         keep = 1 if name == "compress" else len(srcs)  # the selectors of compress stay numbers
         spec["srcs"] = [[rng.choice(pool) for _ in src] if i < keep else src for i, src in enumerate(srcs)]
@@ -79,12 +79,13 @@ def _iter_spec(rng: random.Random, name: str, maxlen: int = 8) -> dict:
         if name != "map" and rng.random() < 0.2:
             # plain values incl. None / falsy ones: nothing but identity may serve as "no item" marker
             spec["raw"] = True
-            pool = [None, None, 0, False, "", 1, ["T"], ["Op", 1], ["Op", 2], ["Aw", 1], ["Aw", 2], ["La", 1]]
+            pool = [None, None, 0, False, "", 1, ["T"], ["Op", 1], ["Op", 2], ["Aw", 1], ["Aw", 2], ["La", 1], ["An", 1]]
             spec["srcs"] = [[rng.choice(pool) for _ in src] for src in srcs]
         if name == "map":
             spec["fns"] = [rng.choice(["mk", "mk", "mk", "tup", "none_or_item", "falsy_result", "lookalike_result"])]
         if name == "zip_longest" and rng.random() < 0.5:
-            spec["params"]["fillvalue"] = rng.choice([["item", 7, "fill"], ["none"], ["raw", 0]])
+            spec["params"]["fillvalue"] = rng.choice([["item", 7, "fill"], ["none"], ["raw", 0], ["raw", ["Aw", 8]], ["raw", ["La", 8]],
+                                                       ["raw", ["An", 8]]])
         return spec
     if name in ("filter", "dropwhile", "takewhile", "filterfalse") and rng.random() < 0.15:
         # a predicate that is only PARTIALLY defined (x < 2 raises for None / a string / a tuple): it fails exactly
@@ -142,7 +143,13 @@ def _iter_spec(rng: random.Random, name: str, maxlen: int = 8) -> dict:
             spec["srcs"] = [[rng.choice([None, 0, 1, 2, 2, ""]) for _ in range(rng.randint(0, min(maxlen, 6)))]]
             spec["fns"] = [rng.choice(["none_if_2", "retnone", "zero_if_1", "second", "first"])]
             if rng.random() < 0.3:
-                spec["params"]["initial"] = ["raw", rng.choice([0, "", 1])]
+                # (an initial value is a value: also one that happens to be awaitable - with the reductions that merely
+                # pass values along it travels untouched)
+                spec["params"]["initial"] = ["raw", rng.choice([0, "", 1, ["Aw", 7], ["La", 7]])]
+                if spec["params"]["initial"][1] == ["Aw", 7] and spec["fns"] == ["first"]:
+                    # (a callable that RETURNS the awaitable value is, by the library's documented rule, an
+                    # asynchronous callable - its result is awaited; that is not the case looked at here)
+                    spec["fns"] = ["second"]
             return spec
         if rng.random() < 0.2:
             # mutable items: running totals must be new objects, the inputs untouched
@@ -360,7 +367,8 @@ def agg_spec(rng: random.Random, name: str, maxlen: int = 8) -> dict:
             spec["fns"] = [rng.choice([None, None, "ident", "neg", "half", "failkey"])]
         r = rng.random()
         if r < 0.3 or (not spec["srcs"][0] and r < 0.7):
-            spec["params"]["default"] = rng.choice([["item", 1, "default"], ["raw", ["L", 5]], ["none"]])
+            # (a default is handed back AS IS - also one that happens to be awaitable, or merely looks like it)
+            spec["params"]["default"] = rng.choice([["item", 1, "default"], ["raw", ["L", 5]], ["none"], ["raw", ["Aw", 9]], ["raw", ["La", 9]]])
         return spec
     if name in ("list", "tuple"):
         spec["srcs"] = [keys_seq(rng, maxlen)]
@@ -403,7 +411,9 @@ def agg_spec(rng: random.Random, name: str, maxlen: int = 8) -> dict:
             spec["srcs"] = [[rng.choice([None, 0, 1, 2, 2, ""]) for _ in range(rng.randint(0, min(maxlen, 6)))]]
             spec["fns"] = [rng.choice(["none_if_2", "retnone", "zero_if_1", "second", "first"])]
             if rng.random() < 0.4:
-                spec["params"]["initial"] = rng.choice([["raw", 0], ["raw", ""], ["none"]])
+                spec["params"]["initial"] = rng.choice([["raw", 0], ["raw", ""], ["none"], ["raw", ["Aw", 7]], ["raw", ["La", 7]]])
+                if spec["params"]["initial"] == ["raw", ["Aw", 7]] and spec["fns"] == ["first"]:
+                    spec["fns"] = ["second"]  # (see accumulate above: a callable returning the awaitable is asynchronous)
             return spec
         spec["srcs"] = [keys_seq(rng, maxlen)]
         spec["fns"] = [rng.choice(BINARY)]
